@@ -27,6 +27,77 @@ func genCacheKey(repo string) (genFile, error) {
 			sts = []string{leanStr("!unrecognised: getShard missing")}
 		}
 		fmt.Fprintf(&b, "/-- the statements of MemCache.getShard in %s -/\ndef %s : List String := [\n  %s\n]\n\n", e.file, e.lean, strings.Join(sts, ",\n  "))
+		// how the key getShard returns is used: the signature of getShard, the type of the shard's map, every statement
+		// of insert and retrieve (anything missing is a value no theorem accepts)
+		base := strings.TrimSuffix(e.lean, "GetShard")
+		sig := "!unrecognised: getShard missing"
+		if fd := funcDecl(f, "MemCache", "getShard"); fd != nil {
+			sig = src(fset, fd.Type)
+		}
+		fmt.Fprintf(&b, "/-- parameters and results of MemCache.getShard in %s -/\ndef %sGetShardSig : String := %s\n\n", e.file, base, leanStr(sig))
+		mapType := "!unrecognised: TemplatesShard.Templates missing"
+		nMaps := 0
+		ast.Inspect(f, func(n ast.Node) bool {
+			ts, ok := n.(*ast.TypeSpec)
+			if !ok || ts.Name.Name != "TemplatesShard" {
+				return true
+			}
+			if st, ok := ts.Type.(*ast.StructType); ok {
+				for _, fl := range st.Fields.List {
+					for _, nm := range fl.Names {
+						if nm.Name == "Templates" {
+							mapType = src(fset, fl.Type)
+							nMaps++
+						}
+					}
+				}
+			}
+			return false
+		})
+		if nMaps != 1 {
+			mapType = fmt.Sprintf("!unrecognised: %d Templates fields", nMaps)
+		}
+		fmt.Fprintf(&b, "/-- the type of TemplatesShard.Templates in %s -/\ndef %sMapType : String := %s\n\n", e.file, base, leanStr(mapType))
+		for _, fn := range []string{"insert", "retrieve"} {
+			var body []string
+			if fd := funcDecl(f, "MemCache", fn); fd != nil {
+				for _, st := range fd.Body.List {
+					body = append(body, leanStr(src(fset, st)))
+				}
+			} else {
+				body = []string{leanStr("!unrecognised: " + fn + " missing")}
+			}
+			fmt.Fprintf(&b, "/-- the statements of MemCache.%s in %s -/\ndef %s%s : List String := [\n  %s\n]\n\n", fn, e.file, base, strings.Title(fn), strings.Join(body, ",\n  "))
+		}
+		// the packages behind the identifiers getShard uses (an alias or a dot import shows in the text)
+		var imps []string
+		for _, im := range f.Imports {
+			imps = append(imps, leanStr(src(fset, im)))
+		}
+		fmt.Fprintf(&b, "/-- the import specs of %s -/\ndef %sImports : List String := [%s]\n\n", e.file, base, strings.Join(imps, ", "))
+		// every other mention of the maps' key in the file (an index expression on .Templates outside insert / retrieve,
+		// a second caller of getShard) would be a second way to reach an entry
+		var others []string
+		for _, d := range f.Decls {
+			fd, ok := d.(*ast.FuncDecl)
+			if !ok || fd.Body == nil || fd.Name.Name == "insert" || fd.Name.Name == "retrieve" {
+				continue
+			}
+			ast.Inspect(fd.Body, func(n ast.Node) bool {
+				switch x := n.(type) {
+				case *ast.IndexExpr:
+					if sel, ok := x.X.(*ast.SelectorExpr); ok && sel.Sel.Name == "Templates" {
+						others = append(others, leanStr(fd.Name.Name+": "+src(fset, x)))
+					}
+				case *ast.CallExpr:
+					if sel, ok := x.Fun.(*ast.SelectorExpr); ok && sel.Sel.Name == "getShard" {
+						others = append(others, leanStr(fd.Name.Name+": "+src(fset, x)))
+					}
+				}
+				return true
+			})
+		}
+		fmt.Fprintf(&b, "/-- index expressions on .Templates and calls of getShard outside insert / retrieve in %s -/\ndef %sOtherKeyUses : List String := [%s]\n\n", e.file, base, strings.Join(others, ", "))
 	}
 	// every call of insert / retrieve outside the cache files themselves, with its printed arguments
 	for _, e := range []struct{ lean, file string }{
